@@ -12,7 +12,7 @@ from simkit import model_world as M
 from simkit.core import EventLog, SutError, Violations, canon, sha
 
 RUN_CAP_S = 120
-CONT = ("normal", "gamma", "exponential", "beta", "lognormal", "halfnormal", "invgamma")
+CONT = ("normal", "gamma", "exponential", "beta", "lognormal", "halfnormal", "invgamma", "mvn3")
 TIGHT = 1e-3
 
 
